@@ -871,6 +871,11 @@ func hostC17(o *out, replay string) {
 		o.emit(line, impl, pred)
 		return
 	}
+	// AutoMTLS and a host that cannot produce its certificate (before anything else runs: a process-wide source is swapped)
+	{
+		impl, pred := runAutoMTLSCertFault()
+		o.emit("!C17.automtls-cert-fault", impl, pred)
+	}
 	r := newRng(seedFromEnv())
 	n := 400
 	if tier() == "thorough" {
